@@ -225,7 +225,7 @@ def prove(run):
                 if TU.random_ttns(su["bt"], q, 2, su["rng"]) is None:
                     continue
                 seen.add(su["shape"])
-                cases.append((seed, n_nodes, flavour, max_dim, 40 if run.tier == "quick" else 400))
+                cases.append((seed, n_nodes, flavour, max_dim, 20 if run.tier == "quick" else 400))
     leds = pool_cases(run, worker, cases)
     run.extra.setdefault("symx", {})["C08_tree_sweep"] = {"trees": len(cases), "local_problems": sum(l.extra.get("ncalls", 0) for l in leds),
                                                           "cases_skipped_for_time": [c for l in leds for c in l.extra.get("skipped", [])],
